@@ -579,6 +579,9 @@ func (w *World) Compare(s SV, v atree.Value, path string) {
 		if m.ValueID() != x.vid {
 			w.Fail("C10: value identifier changed", path)
 		}
+		if ti, ok := m.Type().(testutils.SimpleTypeInfo); ok && ti.Value() != x.ti {
+			w.Fail("type differs from shadow", path)
+		}
 		n := 0
 		err := m.IterateReadOnly(func(k, e atree.Value) (bool, error) {
 			sv, ok := x.vals[keyStr(k)]
@@ -823,3 +826,28 @@ func (f *fixedDigester) Digest(level uint) (atree.Digest, error) {
 }
 func (f *fixedDigester) Reset()       {}
 func (f *fixedDigester) Levels() uint { return uint(len(f.ds)) }
+
+// Retype changes the type of up to k random live containers (any depth) through their handles.
+func (w *World) Retype(k int) {
+	cs := w.containers()
+	for ; k > 0 && len(cs) > 0; k-- {
+		c := cs[w.Rng.Intn(len(cs))]
+		switch x := c.s.(type) {
+		case *svArr:
+			x.ti = uint64(40 + (int(x.ti)-40+1+w.Rng.Intn(2))%3)
+			if err := x.arr.SetType(w.ti(x.ti)); err != nil {
+				w.Fail("SetType failed", err.Error())
+			}
+			w.Rep.Op("arr.settype")
+		case *svMap:
+			if _, simple := x.m.Type().(testutils.SimpleTypeInfo); !simple {
+				continue
+			}
+			x.ti = uint64(50 + (int(x.ti)-50+1+w.Rng.Intn(2))%3)
+			if err := x.m.SetType(w.ti(x.ti)); err != nil {
+				w.Fail("map SetType failed", err.Error())
+			}
+			w.Rep.Op("map.settype")
+		}
+	}
+}
